@@ -37,6 +37,8 @@ class ForceMatrix:
     def __post_init__(self):
         """Constructor method
         """
+        # same floating point error handling on every thread and whatever ran before (np.seterr is thread-local)
+        np.seterr(all='raise')
         self.map_vid_to_row = {}
         self.map_edge_to_column = {}
         self.deletes = set()
